@@ -239,7 +239,7 @@ func buildOps(w *Workload, rl *runLog) (ops []mop, hist []string, accepted map[i
 			ord := deleteOrder(rl, api, ids)
 			ops = append(ops, mop{API: api, IsDelete: true, Order: ord, Text: delText(op, ord), RenameHit: -1})
 			hist = append(hist, fmt.Sprintf("hdel %d %d %s", op.Mint, op.Maxt, listInts(op.Sel)))
-		case "compact", "compactooo":
+		case "compact", "compactooo", "compactooo_race":
 			hist = append(hist, "HNop")
 			lastCut := int64(math.MinInt64)
 			var curMerge *mop
@@ -516,7 +516,7 @@ func parent(f gallina.Flags) {
 		}
 		inflight := rl.Begun > nAcked
 		ck := semKinds(rl)
-		if how != "sigkill" {
+		if how != "sigkill" && !w.NoModel {
 			k := len(ck)
 			desc.K = k
 			kTerm = fmt.Sprintf("(Some %d)", k)
@@ -551,6 +551,25 @@ func parent(f gallina.Flags) {
 		}
 		if c.mixedFrom >= 0 && len(ck) > c.mixedFrom {
 			desc.Shape = "mixed-merge-advances-minvalidtime"
+		}
+		// an out-of-order commit landed after the out-of-order compaction m-mapped its series' chunk
+		// and the kill comes before the out-of-order block is in place (second finding)
+		for r, op := range w.Ops {
+			if op.Kind != "compactooo_race" || r < 1 || !w.Ops[r-1].Nested || rl.Acked[r] {
+				continue
+			}
+			renamed, logged := false, rl.Acked[r-1]
+			for _, h := range rl.Hits {
+				if h.Kind == kBlkRename {
+					renamed = true
+				}
+				if h.Op == r-1 && h.Kind == kWblWrite {
+					logged = true // its WBL records (m-map marker 0 + sample) are durable
+				}
+			}
+			if logged && !renamed {
+				desc.Shape = "ooo-commit-after-compaction-mmap-drops-earlier-sample"
+			}
 		}
 		obs, oerr := reopen(dir, w)
 		desc.OpenErr = oerr
@@ -595,12 +614,16 @@ func parent(f gallina.Flags) {
 		}
 	}
 
-	for wi := -1; wi < nWork; wi++ {
+	corpus := []Workload{corpusMixedMerge(), corpusDeleteStraddle(), corpusOOORace()}
+	for wi := -len(corpus); wi < nWork; wi++ {
 		var w Workload
 		rate := snapRate
 		if wi < 0 {
-			w = corpusMixedMerge()
+			w = corpus[-wi-1]
 			rate = 0
+			if wi < -1 {
+				rate = 1000 // small workloads: every hit
+			}
 		} else {
 			ph := phases
 			if f.Tier != "thorough" && wi%2 == 1 {
@@ -609,6 +632,9 @@ func parent(f gallina.Flags) {
 			w = genWorkload(gen.Fork(f.Seed, wi), fmt.Sprintf("w%d", wi), ph)
 		}
 		wname := fmt.Sprintf("wl_%d", wi+1)
+		if wi < 0 {
+			wname = fmt.Sprintf("wl_c%d", -wi)
+		}
 		wlPath := filepath.Join(scratch, wname+".json")
 		wb, _ := json.Marshal(w)
 		os.WriteFile(wlPath, wb, 0o644)
@@ -699,7 +725,14 @@ func parent(f gallina.Flags) {
 					lim = lim * 2 / 5 // quick tier: early crash points (a child re-runs the workload up to the crash)
 				}
 				if wi < 0 {
-					crash = fmt.Sprintf("%s:%d", ref.Hits[len(ref.Hits)-1].Site, ref.Hits[len(ref.Hits)-1].N)
+					// corpus: right after the last persistence step of the run
+					last := ref.Hits[len(ref.Hits)-1]
+					for _, h := range ref.Hits {
+						if h.Kind > 0 {
+							last = h
+						}
+					}
+					crash = fmt.Sprintf("%s:%d", last.Site, last.N)
 				} else {
 					h := ref.Hits[r.Intn(lim)]
 					crash = fmt.Sprintf("%s:%d", h.Site, h.N)
